@@ -46,6 +46,11 @@ func (r *Reader) readMdat(b *box) (err error) {
 	if r.heic.exif.ol.offset == 0 {
 		return b.close()
 	}
+	// A file may hold several mdat boxes: one that does not hold the item is
+	// skipped, the next call starts at the next box.
+	if off := int(r.heic.exif.ol.offset); off < b.offset+int(b.size)-b.remain || off >= b.offset+int(b.size) {
+		return b.close()
+	}
 	inner, err := r.newExifBox(b)
 	if err != nil {
 		if logLevelError() {
